@@ -715,26 +715,9 @@ fn mode_tag(m: &Mode) -> &'static str {
     }
 }
 
-thread_local! {
-    static PANICS: RefCell<Vec<String>> = const { RefCell::new(Vec::new()) };
-}
-
-fn install_panic_hook() {
-    static ONCE: std::sync::Once = std::sync::Once::new();
-    ONCE.call_once(|| {
-        std::panic::set_hook(Box::new(|info| {
-            let msg = info.to_string();
-            if msg.contains(PANIC_MARK) {
-                return;
-            }
-            PANICS.with(|p| p.borrow_mut().push(msg.lines().take(3).collect::<Vec<_>>().join(" | ")));
-        }));
-    });
-}
-
 pub fn execute(script: &Script, tape: &mut Tape, keep_log: bool) -> RunOut {
-    install_panic_hook();
-    PANICS.with(|p| p.borrow_mut().clear());
+    crate::quiet_panics();
+    let _ = crate::take_panics();
     crate::seams::set_clock_ns(crate::seams::EPOCH_S * 1_000_000_000, 0);
     crate::seams::set_entropy(Some(1));
     RUN.with(|r| {
@@ -802,7 +785,7 @@ pub fn execute(script: &Script, tape: &mut Tape, keep_log: bool) -> RunOut {
     if res.is_err() {
         run.unexpected_panics.push("panic escaped the simulated system".into());
     }
-    PANICS.with(|p| run.unexpected_panics.extend(p.borrow_mut().drain(..)));
+    run.unexpected_panics.extend(crate::take_panics().into_iter().filter(|m| !m.contains(PANIC_MARK)));
     evaluate(script, &run, &mut out);
     // abstract state: what each connection looked like when the shutdown call was made
     if let (Some(sd), Some((call_seq, _))) = (&script.shutdown, run.t_call) {
